@@ -38,6 +38,7 @@ def Obs.observe (g : Obs) : Op → Out → Obs
 def Legal (g : Obs) : Op → Prop
   | .confirm => g.owed = true
   | .cccd on => on = true
+  | .reconnect => False
   | _ => True
 
 instance (g : Obs) (op : Op) : Decidable (Legal g op) := by
@@ -288,6 +289,7 @@ theorem inv_step (s : Sys) (g : Obs) (h : Inv s g) (op : Op) (hl : Legal g op) :
     subst this
     exact ⟨h.prog, rfl, h.owed, h.queued, h.onway, h.cur, h.done⟩
   | wheel => exact h
+  | reconnect => exact absurd hl (fun x => x)
 
 theorem Reach.inv {s : Sys} {g : Obs} (r : Reach s g) : Inv s g := by
   induction r with
